@@ -436,18 +436,23 @@ class KafkaCodec(object):
 
             codec = att & ATTRIBUTE_CODEC_MASK
 
+            def inner_messages(inner_set):
+                # In message format 1 the wrapper carries the absolute offset
+                # of its *last* inner message and inner offsets are relative.
+                inner = list(KafkaCodec._decode_message_set_iter(inner_set))
+                if inner:
+                    base = offset - inner[-1].offset
+                    for inner_offset, msg in inner:
+                        yield base + inner_offset, msg
+
             if codec == CODEC_NONE:
                 yield offset, Message(magic, att, key, value, timestamp)
 
             elif codec == CODEC_GZIP:
-                gz = gzip_decode(value)
-                for offset, msg in KafkaCodec._decode_message_set_iter(gz):
-                    yield offset, msg
+                yield from inner_messages(gzip_decode(value))
 
             elif codec == CODEC_SNAPPY:
-                snp = snappy_decode(value)
-                for offset, msg in KafkaCodec._decode_message_set_iter(snp):
-                    yield offset, msg
+                yield from inner_messages(snappy_decode(value))
 
             else:
                 raise ProtocolError("Unsupported codec 0b{:b}".format(codec))
